@@ -12,4 +12,5 @@ CONSTANTS
   BareUpdate = "refused"
   Sizes = {0}
   ReadLimit = 0
+  OwnFrame = TRUE
 CHECK_DEADLOCK FALSE
